@@ -27,8 +27,31 @@ def parseBeta (s : String) : Option (List (Str × Str)) :=
 
 def fuel : Nat := 256
 
+def parseFail (s : String) : Option (Option Nat) :=
+  if s == "-" then some none else s.toNat?.map some
+
+def renderOutcome : Outcome → String
+  | .answer (some true) => "1"
+  | .answer (some false) => "0"
+  | .answer none => "fuel"
+  | .sourceError => "source"
+  | .sinkError => "sink"
+
+/-- `isoerr <d|g> <f1> <f2> <quad>* | <quad>*`: both argument orders on fallible containers -/
+def handleErr (f1s f2s : String) (rest : List String) : String :=
+  match parseFail f1s, parseFail f2s, parseQuads (rest.length + 1) rest with
+  | some f1, some f2, some (D1, rest2) =>
+    match parseQuads (rest2.length + 1) rest2 with
+    | some (D2, []) =>
+      let deep := Gen.IsoVariant.deep
+      reply [kv "r12" (renderOutcome (isoE deep (isort deep) mixHash fuel f1 f2 D1 D2)),
+             kv "r21" (renderOutcome (isoE deep (isort deep) mixHash fuel f2 f1 D2 D1))]
+    | _ => "bad-op"
+  | _, _, _ => "bad-op"
+
 def handle (line : String) : String :=
   match fields line with
+  | "isoerr" :: _kind :: f1 :: f2 :: rest => handleErr f1 f2 rest
   | "iso" :: _kind :: _c1 :: _c2 :: beta :: rest =>
     match parseBeta beta, parseQuads (rest.length + 1) rest with
     | some β, some (D1, rest2) =>
@@ -46,6 +69,14 @@ def handle (line : String) : String :=
         let g := sg && zg && bg
         let adv := iso deep srt mixHash fuel D1 D2
         let advS := match adv with | some true => "1" | some false => "0" | none => "fuel"
+        -- diagnostics (model only): does the sufficient condition for termination of `iso_relabel_total_partial`
+        -- hold on this request (class counts of the first argument never decrease during 2n+1 rounds), and how
+        -- many rounds does the loop take
+        let b1 := makeB2q s1
+        let b2 := makeB2q s2
+        let mono := g && monoRun mixHash s1 b1 (2 * b1.length + 1) (initMap b1) 0
+        let rnds := if g then (match roundsUsed mixHash s1 s2 b1 b2 fuel (initMap b1) (initMap b2) 0 0 with
+                               | some n => toString n | none => "fuel") else "0"
         -- the oracle (Model/IsoOracle.lean; `certOk_sound` / `groundDiffers_sound` in Props/C07.lean)
         let cert := certOk β D1 D2
         let gd := groundDiffers D1 D2
@@ -58,7 +89,7 @@ def handle (line : String) : String :=
         -- eqClasses / refine to dataset.rs and hash.rs, not only the gates.
         reply ([kvN "n1" D1.length, kvN "n2" D2.length, kvB "size_gate" sg, kvB "zip_gate" zg,
                 kvB "bcount_gate" bg, kvB "gates" g, kv "adv_iso" advS, kvB "cert" cert, kvB "ground_differs" gd]
-               ++ [kv "iso" (if !g then "0" else advS)]
+               ++ [kv "iso" (if !g then "0" else advS), kvB "mono" mono, kv "rounds" rnds]
                ++ (if cert && wf then [kv "o.iso" "1"] else if gd then [kv "o.iso" "0"] else []))
       | _ => "bad-op"
     | _, _ => "bad-op"
